@@ -14,6 +14,7 @@ import ast
 import copy
 import datetime
 import json
+import re
 import sys
 import types
 
@@ -317,7 +318,8 @@ def observe(text, txn, rows):
                     raise
                 except BaseException as e:
                     again = {'err': 'py', 'cls': type(e).__name__}
-                if not exprs.same_outcome(outcome, again) and outcome.get('ok', {}).get('t') not in ('gen', 'other'):
+                noaddr = lambda o: json.loads(re.sub(r' at 0x[0-9a-f]+', '', json.dumps(o)))      # an escaped generator prints with its address
+                if not exprs.same_outcome(noaddr(outcome), noaddr(again)) and outcome.get('ok', {}).get('t') not in ('gen', 'other'):
                     problems.append(f'evaluating the same expression again gives {json.dumps(again)[:80]} instead of {json.dumps(outcome)[:80]}')
                 if ast.dump(tree) != dump0:
                     problems.append('parsed expression was modified by evaluation')
